@@ -3,8 +3,8 @@
 For every configuration (schema of a small built-in family, seed, phase subset, generation modes) the REAL engine is run
   A   in a fresh subprocess, PYTHONHASHSEED = h1
   B   in a fresh subprocess, PYTHONHASHSEED = h2            (fresh-process reproducibility, string-hash order must not matter)
-  C   one more subprocess (PYTHONHASHSEED = h1) running A1, A2 (same seed twice, process-global caches warm the second time),
-      W3 (same seed, 3 workers) and D (another seed)
+  C   one more subprocess (PYTHONHASHSEED = h1) running A1, A2 (same seed twice, process-global caches warm the second time)
+  E   a subprocess (PYTHONHASHSEED = h1) running W3 (same seed, 3 workers) and D (another seed)
 against a deterministic, stateless scripted loopback server owned by this process; the SERVER LOG is the ground truth.  Logs are cut
 into phases by marker requests, projected to integer digests and paired into units; TLC validates every unit against Repro.tla
 (`ReproTrace`).  A rejected unit names the phase, the operation and the first divergent field.
@@ -118,13 +118,12 @@ def fam_multi(dirname: str) -> str:
     get = root["paths"]["/items/{id}"]["get"]
     get["parameters"][1] = {"$ref": "defs.json#/parameters/N"}
     get["parameters"][5]["schema"] = {"$ref": "sub/more.json#/Tag"}
-    user_ref = {"$ref": "defs.json#/schemas/User"}
-    root["paths"]["/users"]["post"]["requestBody"]["content"]["application/json"]["schema"] = user_ref
-    root["paths"]["/users/{id}"]["patch"]["requestBody"]["content"]["application/json"]["schema"] = user_ref
+    user = root["paths"]["/users"]["post"]["requestBody"]["content"]["application/json"]["schema"]
+    root["paths"]["/users"]["post"]["requestBody"]["content"]["application/json"]["schema"] = {"$ref": "defs.json#/schemas/User"}
+    root["paths"]["/users/{id}"]["patch"]["requestBody"]["content"]["application/json"]["schema"] = {"$ref": "defs.json#/schemas/User"}
     item = copy.deepcopy(ITEM)
     item["properties"]["tags"]["items"] = {"$ref": "sub/more.json#/Tag"}
-    defs = {"schemas": {"Item": item, "User": l["paths"]["/users"]["post"]["requestBody"]["content"]["application/json"]["schema"]},
-            "parameters": {"N": p["paths"]["/items/{id}"]["get"]["parameters"][1]}}
+    defs = {"schemas": {"Item": item, "User": user}, "parameters": {"N": fam_params()["paths"]["/items/{id}"]["get"]["parameters"][1]}}
     more = {"Tag": {"type": "string", "pattern": "^[a-z]{1,5}$"}}
     os.makedirs(os.path.join(dirname, "sub"), exist_ok=True)
     for name, doc in (("root.json", root), ("defs.json", defs), (os.path.join("sub", "more.json"), more)):
@@ -193,7 +192,8 @@ def configurations(ctx: Ctx) -> list[dict]:
     for i, (s, p, m) in enumerate(base):
         seed = rng.randrange(1, 2 ** 31 - 1)
         out.append({"id": i, "schema": s, "phases": p, "modes": m, "seed": seed, "seed2": seed + 1 + rng.randrange(1000),
-                    "h1": rng.randrange(1, 4000), "h2": rng.randrange(4001, 8000), "max_examples": 6 if ctx.quick else 8, "steps": 5})
+                    "h1": rng.randrange(1, 4000), "h2": rng.randrange(4001, 8000), "max_examples": 5 if ctx.quick else 8, "steps": 4 if ctx.quick else 5,
+                    "diff": (not ctx.quick) or i % 2 == 0})
     return out
 
 
@@ -219,7 +219,9 @@ def run_child(cfg: dict, workdir: str, name: str, hashseed: int, runs: list[dict
         job = os.path.join(workdir, "job-%s.json" % name)
         with open(job, "w") as fd:
             json.dump({"schema": schema, "base_url": srv.base_url, "runs": runs}, fd)
-        proc = subprocess.run([sys.executable, "-m", "harness.c13_child", job], cwd=workdir, env=child_env(hashseed),
+        cwd = os.path.join(workdir, "cwd-" + name)      # own (empty) Hypothesis storage directory: concurrent processes race on .hypothesis/constants
+        os.makedirs(cwd, exist_ok=True)
+        proc = subprocess.run([sys.executable, "-m", "harness.c13_child", job], cwd=cwd, env=child_env(hashseed),
                               stdout=subprocess.PIPE, stderr=subprocess.PIPE, timeout=1500)
         if proc.returncode != 0:
             raise RuntimeError("child %s of configuration %s failed: %s" % (name, cfg["id"], proc.stderr.decode()[-1500:]))
@@ -286,14 +288,14 @@ def run_config(args) -> dict:
     cfg, workdir = args
     wd = os.path.join(workdir, "cfg-%d" % cfg["id"])
     one = {"seed": cfg["seed"], "workers": 1, "phases": cfg["phases"], "modes": cfg["modes"], "max_examples": cfg["max_examples"], "steps": cfg["steps"]}
-    plan = [("A", cfg["h1"], [dict(one, tag="A")]), ("B", cfg["h2"], [dict(one, tag="B")])]
-    warm = [dict(one, tag="A1"), dict(one, tag="A2"), dict(one, tag="W3", workers=3), dict(one, tag="D", seed=cfg["seed2"])]
-    plan.append(("C", cfg["h1"], [r for r in warm if r["tag"] in cfg.get("only_runs", ["A1", "A2", "W3", "D"])]))
-    plan = [p for p in plan if p[0] in cfg.get("only_children", ["A", "B", "C"])]
+    plan = [("A", cfg["h1"], [dict(one, tag="A")]), ("B", cfg["h2"], [dict(one, tag="B")]),
+            ("C", cfg["h1"], [dict(one, tag="A1"), dict(one, tag="A2")]),
+            ("E", cfg["h1"], [dict(one, tag="W3", workers=3)] + ([dict(one, tag="D", seed=cfg["seed2"])] if cfg.get("diff", True) else []))]
+    plan = [p for p in plan if p[0] in cfg.get("only_children", ["A", "B", "C", "E"])]
     t0 = time.time()
     if cfg["schema"] == "multi":
         fam_multi(os.path.join(wd, "schema"))
-    with ThreadPoolExecutor(max_workers=3) as ex:
+    with ThreadPoolExecutor(max_workers=4) as ex:
         res = list(ex.map(lambda p: run_child(cfg, wd, p[0], p[1], p[2]), plan))
     runs: dict = {}
     for r in res:
@@ -305,8 +307,8 @@ PAIRS = [  # (tag a, tag b, same seed, workers a, workers b, how)
     ("A", "B", True, 1, 1, "fresh-processes-different-hashseed"),
     ("A", "A1", True, 1, 1, "fresh-processes-same-hashseed"),
     ("A1", "A2", True, 1, 1, "second-run-in-warm-process"),
-    ("A1", "W3", True, 1, 3, "workers-1-vs-3"),
-    ("A1", "D", False, 1, 1, "different-seed"),
+    ("A", "W3", True, 1, 3, "workers-1-vs-3"),
+    ("A", "D", False, 1, 1, "different-seed"),
 ]
 
 
@@ -456,7 +458,7 @@ def run(ctx: Ctx) -> Outcome:
     out = Outcome()
     cfgs = configurations(ctx)
     t1 = time.time()
-    with ThreadPoolExecutor(max_workers=6) as ex:
+    with ThreadPoolExecutor(max_workers=12 if ctx.quick else 8) as ex:
         results = list(ex.map(run_config, [(c, ctx.work) for c in cfgs]))
     t_run = time.time() - t1
     st = evaluate(ctx, out, results)
@@ -471,7 +473,7 @@ def run(ctx: Ctx) -> Outcome:
         "evaluations": requests_total,
         "distinct_nontrivial": st["constrained"],
         "rule": "%d configurations (schema of the built-in family x phase subset x generation modes x seed derived from VERIF_SEED), each run 6 times "
-                "(A, B fresh subprocesses with different PYTHONHASHSEED; A1, A2 in one warm process; W3 = 3 workers; D = another seed); one unit per "
+                "(A, B fresh subprocesses with different PYTHONHASHSEED; A1, A2 in one warm process; W3 = 3 workers; D = another seed, in half of the quick configurations); one unit per "
                 "(comparison, phase); non-trivial = constrained unit (same seed) with traffic" % len(cfgs),
         "exhaustive": False,
         "why_not_exhaustive": "the space seeds x schemas x configurations cannot be enumerated by TLC; Repro.tla is a trace specification, every "
@@ -481,6 +483,8 @@ def run(ctx: Ctx) -> Outcome:
         "units_accepted": st["accepted"], "units_rejected": st["units"] - st["accepted"], "requests_compared(lines)": st["lines"],
         "different_seed_units": st["diff_units"], "different_seed_units_that_differ": st["diff_differ"],
         "requests_outside_phases": outside, "skipped_outside_fragment": 0,
+        "requests_per_phase": {ph: sum(len(run_["phases"].get(ph, [])) for r in results for run_ in r["runs"].values()) for ph in PH.values()},
+        "config_wall_s": [round(r["wall"], 1) for r in results],
         "engine_runs_s": round(t_run, 1), "tlc_s": round(st["tlc_s"], 1),
     }
     out.assumptions = [
@@ -490,6 +494,12 @@ def run(ctx: Ctx) -> Outcome:
         "the API script is a pure function of (method, target, body): deterministic and stateless",
         "harness.compat.enable_links() is applied in every child (Hypothesis 6.168 renamed the hook schemathesis overrides; without the shim no link is "
         "followed in the stateful phase)",
+        "Hypothesis' local-constants feature is neutralised in every child (c13_child.neutralise_local_constants: no module counts as local, "
+        "as for a CLI user without local hook modules): with it the data drawn for a fixed seed depends on which not-installed modules "
+        "(here: the editable install of schemathesis itself and the harness) are imported at generation time, and its module scan is racy "
+        "between worker threads - both observed while building this check, both outside schemathesis",
+        "every child process has its own working directory, i.e. its own empty Hypothesis storage directory (processes that share one race on the "
+        "`.hypothesis/constants` cache files of Hypothesis' local-constants feature - a property of Hypothesis, observed while building this check)",
         "Hypothesis health checks and deadlines are off and the example database is disabled in every run (timing must not influence traffic)",
     ]
     return out
